@@ -549,13 +549,22 @@ func runReparse(c *core.Ctx) {
 	for i := 0; i < per; i++ {
 		annot, types := randAnnotations(c)
 		// a hand-made title: JSON produced by encoding/json (different escaping choices than the toolkit's writer)
+		// one title in four carries its definition inside the JSON object (the "definition" key is where the
+		// toolkit keeps it); free text after the object is appended to it, never put in its place
+		defInJSON := ""
+		if c.Rng.Intn(4) == 0 {
+			defInJSON = []string{"COI amplicon", "x", "marker 16S; clone 12", "uncultured bacterium"}[c.Rng.Intn(4)]
+			annot["definition"] = defInJSON
+		}
 		b, err := json.Marshal(annot)
 		if err != nil {
 			continue
 		}
 		title := string(b)
+		trailing := ""
 		if c.Rng.Intn(3) == 0 {
-			title += " " + strings.TrimSpace(strings.NewReplacer("\n", " ", "\t", " ", "{", "(", "}", ")").Replace(randString(c)))
+			trailing = strings.TrimSpace(strings.NewReplacer("\n", " ", "\t", " ", "{", "(", "}", ")").Replace(randString(c)))
+			title += " " + trailing
 		}
 		var pats []string
 		for _, p := range patternClass(title) {
@@ -584,6 +593,16 @@ func runReparse(c *core.Ctx) {
 			if !ok {
 				c.Violate("reparse:lost-annotation:"+label, "an annotation of an accepted title line is lost by the parser", det)
 				break
+			}
+			if k == "definition" && defInJSON != "" && strings.TrimSpace(trailing) != "" {
+				// definition given in the object AND free text behind it: both are kept
+				if gs, _ := gv.(string); !strings.Contains(gs, defInJSON) || !strings.Contains(gs, strings.TrimSpace(trailing)) {
+					det["key"], det["definition_read"] = k, gv
+					c.Violate("reparse:definition-and-trailing-text:"+label, "the definition given inside the JSON object of a title line is lost or the text that follows the object is", det)
+					break
+				}
+				c.Count("titles_with_definition_key_and_trailing_text", 1)
+				continue
 			}
 			if !sameValue(gv, v) {
 				det["key"] = k
